@@ -7,16 +7,19 @@
    Route domain (wf_route / wf_nlri / wf_item in Proofs_Encode): ipv4/ipv6 x unicast, multicast, nlri-mpls,
    mpls-vpn; label stack as ExaBGP builds it (bottom-of-stack bit on the last label); length octet <= 255;
    next hop of the route family, or IPv6 for an IPv4 route when RFC 8950 is negotiated; any subset of ORIGIN,
-   AS_PATH (segments of 1..255 ASNs), MED, LOCAL_PREF, ATOMIC_AGGREGATE, AGGREGATOR, COMMUNITY, ORIGINATOR_ID,
-   CLUSTER_LIST, EXTENDED/LARGE COMMUNITY, generic attributes with a code ExaBGP's decoder does not know;
+   AS_PATH (segments of ANY number of 4-byte ASNs: the 255-ASN split of ASPath._segment is modelled and proved,
+   C01_segment_split), MED, LOCAL_PREF, ATOMIC_AGGREGATE, AGGREGATOR, COMMUNITY, ORIGINATOR_ID, CLUSTER_LIST,
+   EXTENDED/LARGE COMMUNITY, generic attributes with a code ExaBGP's decoder does not know;
    sessions: any local/peer AS < 2^32 (iBGP or eBGP), ASN4 or not, any ADD-PATH send function, msg size <= 65535.
-   C01_decodes_to_request needs `small_route`: the peer has ASN4, or no ASN above 65535 has to be sent;
-   the remaining case (4-byte ASNs to a 2-byte peer) is C01_as4_to_2byte_peer, at the level of the AS_PATH /
-   AS4_PATH attribute pair.  `mc` = which form of the IPv4/MP classification the tree has (harness reads it):
-   false = the repaired tree; for mc = true the statement is false (C01_multicast_refuted) and holds for every
-   route except ipv4 multicast (C01_decodes_to_request_partial).  `v4m` = whether the tree sends the IPv4 next hop
-   of an IPv6-family route IPv4-mapped; inside the domain (next hop of the route family) it makes no difference. *)
-From Coq Require Import ZArith Bool List Permutation.
+   `dict_route` = the attribute codes are distinct (the AttributeCollection is a dict) OR nothing needs AS4_*
+   (the hypothesis of the first version, kept so that nothing is weakened).  With distinct codes the whole-UPDATE
+   theorems hold for 4-byte ASNs sent to a 2-byte peer too: AS_TRANS + AS4_PATH / AS4_AGGREGATOR are on the wire
+   and the RFC 6793 reconstruction inside ref_decode gives back the requested path and aggregator.
+   `mc` = which form of the IPv4/MP classification the tree has (harness reads it): false = the repaired tree; for
+   mc = true the statement is false (C01_multicast_refuted) and holds for every route except ipv4 multicast
+   (C01_decodes_to_request_partial).  `v4m` = whether the tree sends the IPv4 next hop of an IPv6-family route
+   IPv4-mapped; inside the domain (next hop of the route family) it makes no difference. *)
+From Coq Require Import ZArith Bool List Permutation Sorted.
 From ExaV Require Import gen.Gen_NlriRegistry model.Model_Nlri model.Model_Attr model.Model_Encode
   spec.Spec_Nlri spec.Spec_Update proofs.Proofs_Encode.
 Import ListNotations.
@@ -25,7 +28,8 @@ Open Scope Z_scope.
 (* the UPDATE sent for an announced route decodes to exactly that route: no withdrawn route, one announced
    route of the requested family with the requested prefix / labels / rd, the path id the session dictates,
    the resolved next hop; the attribute values are (up to order) the given ones - LOCAL_PREF only on iBGP -
-   plus ORIGIN IGP, AS_PATH [] (iBGP) or [local_as] (eBGP), LOCAL_PREF 100 (iBGP) for what is absent *)
+   plus ORIGIN IGP, AS_PATH [] (iBGP) or [local_as] (eBGP), LOCAL_PREF 100 (iBGP) for what is absent; the last
+   conjunct gives them in wire order: the items the model sends, which are ascending by code (C01_attribute_order) *)
 Theorem C01_decodes_to_request : forall v4m ext s r body,
   wf_route ext s r ->
   encode_announce false v4m s r = Some body ->
@@ -33,7 +37,8 @@ Theorem C01_decodes_to_request : forall v4m ext s r body,
     /\ u_withdrawn u = []
     /\ u_announced u = [((n_afi (r_nlri r), n_safi (r_nlri r)), sem_nlri (send_pid s (r_nlri r)) false (r_nlri r),
                          resolve s (n_afi (r_nlri r)) (r_nh r))]
-    /\ Permutation (u_attrs u) (expected_attrs s (r_items r)).
+    /\ Permutation (u_attrs u) (expected_attrs s (r_items r))
+    /\ u_attrs u = flat_map sem_item (sent_items s (items_of s r)).
 Proof. intros v4m ext s r body W. exact (announce_decodes' false v4m ext s r body W (or_introl eq_refl)). Qed.
 
 (* the tree that packs ipv4 multicast like unicast: true for everything else ... *)
@@ -45,7 +50,8 @@ Theorem C01_decodes_to_request_partial : forall v4m ext s r body,
     /\ u_withdrawn u = []
     /\ u_announced u = [((n_afi (r_nlri r), n_safi (r_nlri r)), sem_nlri (send_pid s (r_nlri r)) false (r_nlri r),
                          resolve s (n_afi (r_nlri r)) (r_nh r))]
-    /\ Permutation (u_attrs u) (expected_attrs s (r_items r)).
+    /\ Permutation (u_attrs u) (expected_attrs s (r_items r))
+    /\ u_attrs u = flat_map sem_item (sent_items s (items_of s r)).
 Proof. intros v4m ext s r body W H. exact (announce_decodes' true v4m ext s r body W (or_intror H)). Qed.
 
 (* ... and false for 224.0.0.0/24 next-hop 1.2.3.4: the peer decodes an ipv4 UNICAST route *)
@@ -61,18 +67,40 @@ Theorem C01_next_hop_self : forall s afi ip,
   resolve s afi NhSelf = (if afi =? 1 then s_self4 s else s_self6 s) /\ resolve s afi (NhIp ip) = ip.
 Proof. intros. split; reflexivity. Qed.
 
-(* RFC 6793 on a 2-byte session: the AS_PATH on the wire holds AS_TRANS in every slot of an ASN > 65535 (and only
-   2-byte values), AS4_PATH is present iff there is such an ASN, and the reconstruction gives the requested path *)
+(* RFC 6793 on a 2-byte session, the AS_PATH / AS4_PATH pair on its own: the AS_PATH on the wire holds AS_TRANS in
+   every slot of an ASN > 65535 (and only 2-byte values), AS4_PATH is present iff the request has such an ASN, and the
+   reconstruction gives the requested path (as stored: cut in segments of at most 255) *)
 Theorem C01_as4_to_2byte_peer : forall s ext segs,
-  s_asn4 s = false -> Forall (seg_ok 4294967296) segs -> zlen (pack_segs true segs) < 65536 ->
+  s_asn4 s = false -> Forall seg_in segs -> zlen (pack_segs true (path_segments segs)) < 65536 ->
   exists ts ras,
     tlvs (length (pack_item s (IAsPath segs))) (pack_item s (IAsPath segs)) = Some ts
     /\ interp_all (rs_of s ext) ts = Some ras
-    /\ find_aspath ras = Some (map (fun sg => (fst sg, map (fun v => if 65535 <? v then 23456 else v) (snd sg))) segs)
-    /\ Forall (seg_ok 65536) (trans_path segs)
-    /\ find_as4path ras = (if has_large segs then Some segs else None)
-    /\ merge_as4 (rs_of s ext) ras = [SAsPath segs].
+    /\ find_aspath ras
+       = Some (map (fun sg => (fst sg, map (fun v => if 65535 <? v then 23456 else v) (snd sg))) (path_segments segs))
+    /\ Forall (seg_ok 65536) (trans_path (path_segments segs))
+    /\ find_as4path ras = (if has_large segs then Some (path_segments segs) else None)
+    /\ merge_as4 (rs_of s ext) ras = [SAsPath (path_segments segs)].
 Proof. exact as4_pair. Qed.
+
+(* ASPath._segment: a segment of n ASNs is stored as ceil(n/255) segments of 1..255 ASNs whose concatenation is the
+   segment (none for n = 0); so the stored path has the requested ASNs in the requested order, a segment of 1..255
+   ASNs is stored as it is, and an ASN above 65535 is in the stored path iff it was requested *)
+Theorem C01_segment_split :
+  (forall a, concat (seg_split (length a) a) = a
+             /\ Forall (fun c => (1 <= length c <= 255)%nat) (seg_split (length a) a)
+             /\ length (seg_split (length a) a) = ((length a + 254) / 255)%nat)
+  /\ (forall p, flat_map snd (path_segments p) = flat_map snd p)
+  /\ (forall p, Forall seg_in p -> Forall (seg_ok 4294967296) (path_segments p))
+  /\ (forall lim p, Forall (seg_ok lim) p -> path_segments p = p)
+  /\ (forall p, has_large (path_segments p) = has_large p).
+Proof.
+  exact (conj (fun a => seg_split_spec (length a) a (le_n _))
+        (conj path_segments_flat (conj path_segments_ok (conj path_segments_id has_large_split)))).
+Qed.
+
+(* the attributes are sent in ascending order of their code (sorted(alls) of pack_attribute) *)
+Theorem C01_attribute_order : forall s items, Sorted code_le (sent_items s items).
+Proof. exact sent_items_sorted. Qed.
 
 (* ADD-PATH send for the family <-> a path identifier in the decoded route and 4 more octets on the wire;
    its value is the requested one, or 0 *)
@@ -82,18 +110,38 @@ Theorem C01_pathid : forall s n,
   /\ zlen (pack_nlri (send_pid s n) n) = zlen (body n) + (if s_ap s (n_afi n) (n_safi n) then 4 else 0).
 Proof. exact pathid_lemma. Qed.
 
-(* withdraw direction: the route is in Withdrawn Routes / MP_UNREACH_NLRI, nothing is announced (so no next hop),
-   and for unicast/multicast no attribute at all (so no default) is sent.  For nlri-mpls / mpls-vpn the code sends
-   the route's attributes with defaults next to MP_UNREACH_NLRI (RFC 4760 allows, does not require that) *)
+(* withdraw direction: the route is in Withdrawn Routes / MP_UNREACH_NLRI, nothing is announced (so no next hop);
+   for unicast/multicast no attribute at all (so no default) is sent; for nlri-mpls / mpls-vpn the code sends the
+   route's attributes with the defaults next to MP_UNREACH_NLRI (RFC 4760 allows, does not require that) and they
+   decode to the same values as in the announce direction *)
 Theorem C01_withdraw : forall ext s r body,
   wf_nlri true (r_nlri r) -> Forall wf_item (r_items r) -> no_nh (r_items r) -> wf_defaults s -> s_msg s <= 65535 ->
-  small_route s (r_items r) ->
+  dict_route s (r_items r) ->
   encode_withdraw false s (r_nlri r) (items_of s r) = Some body ->
   exists u, ref_decode (rs_of s ext) body = Some u
     /\ u_withdrawn u = [((n_afi (r_nlri r), n_safi (r_nlri r)), sem_nlri (send_pid s (r_nlri r)) true (r_nlri r))]
     /\ u_announced u = []
-    /\ (n_safi (r_nlri r) = 1 \/ n_safi (r_nlri r) = 2 -> u_attrs u = []).
+    /\ (n_safi (r_nlri r) = 1 \/ n_safi (r_nlri r) = 2 -> u_attrs u = [])
+    /\ (n_safi (r_nlri r) = 4 \/ n_safi (r_nlri r) = 128 -> Permutation (u_attrs u) (expected_attrs s (r_items r))).
 Proof. intros ext s r body W1 W2 W3 W4 W5 W6. exact (withdraw_decodes false ext s r body W1 W2 W3 W4 W5 W6 (or_introl eq_refl)). Qed.
+
+(* whatever is sent fits the negotiated message size (4096 or 65535): header + body <= msg_size *)
+Theorem C01_fits_message_size : forall mc v4m s r n items body,
+  (encode_announce mc v4m s r = Some body -> 19 + zlen body <= s_msg s)
+  /\ (encode_withdraw mc s n items = Some body -> 19 + zlen body <= s_msg s).
+Proof. intros. split; [apply announce_fits | apply withdraw_fits]. Qed.
+
+(* an announced route is sent if and only if its UPDATE (header, attributes with defaults, NLRI or MP_REACH_NLRI)
+   fits the negotiated size, and the UPDATE has exactly that length: nothing is dropped that could be sent *)
+Theorem C01_sent_iff_fits : forall mc v4m s r,
+  (announce_size mc v4m s r <= s_msg s <-> exists body, encode_announce mc v4m s r = Some body)
+  /\ (forall body, encode_announce mc v4m s r = Some body -> 19 + zlen body = announce_size mc v4m s r).
+Proof. exact announce_sent_iff_fits. Qed.
+
+(* the AttributeCollection is a dict: the order in which the operator wrote the attributes changes no octet *)
+Theorem C01_written_order_is_irrelevant : forall s items items',
+  Permutation items items' -> NoDup (map code_of items) -> pack_attrs s true items = pack_attrs s true items'.
+Proof. exact attrs_order_independent. Qed.
 
 (* COMMUNITY / EXTENDED COMMUNITY (sorted) and LARGE COMMUNITY (sorted, duplicates dropped) carry exactly the
    requested set of values *)
@@ -112,12 +160,26 @@ Example C01_example :
   /\ exists body, encode_announce false false ex_sess ex_route = Some body /\ zlen body = 98.
 Proof. exact ex_route_ok. Qed.
 
+(* non-vacuity of the 2-byte-peer case: 10.0.0.0/24 next-hop self as-path [ 70000 65010 4200000000 ]
+   aggregator ( 4200000000:1.1.1.1 ) local-preference 200 from AS 70000 to a peer without ASN4 is in the domain by
+   the distinct-codes branch only, and is encoded (67 octets: AS_TRANS, AS4_PATH, AS4_AGGREGATOR, no LOCAL_PREF) *)
+Example C01_example_2byte_peer :
+  wf_route (fun _ _ => false) ex2_sess ex2_route
+  /\ ~ small_route ex2_sess (r_items ex2_route)
+  /\ exists body, encode_announce false false ex2_sess ex2_route = Some body /\ zlen body = 67.
+Proof. exact ex2_route_ok. Qed.
+
 Print Assumptions C01_decodes_to_request.
 Print Assumptions C01_decodes_to_request_partial.
 Print Assumptions C01_multicast_refuted.
 Print Assumptions C01_next_hop_self.
 Print Assumptions C01_as4_to_2byte_peer.
+Print Assumptions C01_segment_split.
+Print Assumptions C01_attribute_order.
 Print Assumptions C01_pathid.
 Print Assumptions C01_withdraw.
+Print Assumptions C01_fits_message_size.
+Print Assumptions C01_sent_iff_fits.
+Print Assumptions C01_written_order_is_irrelevant.
 Print Assumptions C01_community_sets.
 Print Assumptions C01_generic_flags.
